@@ -16,7 +16,6 @@ just written, when it is a literal (`self.set_*_status(x, WorkflowStatus.K)` pre
 from __future__ import annotations
 
 import ast
-from pathlib import Path
 
 from .common import TranslateError, lean_bool, lean_list, lean_str, src, write_if_changed
 
